@@ -140,7 +140,13 @@ def main():
                 # the counter-model does not have the shape the replayer expects (e.g. abstract objects): not a failing input
                 out.setdefault('skipped', []).append(dict(test=h.cur, reason='replayer could not build the input: %s: %s' % (type(e).__name__, e)))
             mod = type('M', (), {'ITEMS': []})
-        for item in mod.ITEMS:
+        items = list(mod.ITEMS)
+        if not a.cex:
+            from contracts import probes as _probes
+            pit = _probes.probe_item(mod)
+            if pit is not None:
+                items.append(pit)
+        for item in items:
             nat = getattr(item, 'native', None)
             if nat is None:
                 continue
